@@ -260,6 +260,7 @@ type SliceV struct {
 	IsV  bool  // Vec authoritative (allows empty Vec)
 	Tag  int
 	Base *Term // explicit vectors obtained by exploding an array remember it: unchanged elements are Select(Base,i)
+	BaseLens *Term
 }
 
 type StructV struct {
@@ -436,6 +437,9 @@ func (s *SliceV) materialize() *SliceV {
 	var lit *Term
 	if s.Elem.K == "slice" {
 		lens = ConstArr(SArrInt, Zero)
+		if s.BaseLens != nil {
+			lens = s.BaseLens
+		}
 	}
 	if s.Elem.K == "var" {
 		allLit := true
@@ -466,6 +470,9 @@ func (s *SliceV) materialize() *SliceV {
 			arr = Store(arr, idx, ev.ID)
 		case *SliceV:
 			m := ev.materialize()
+			if s.Base != nil && s.BaseLens != nil && m.Arr == Select(s.Base, idx) && m.Len == Select(s.BaseLens, idx) {
+				continue
+			}
 			arr = Store(arr, idx, m.Arr)
 			lens = Store(lens, idx, m.Len)
 			if m.Elem.K == "slice" {
